@@ -93,6 +93,12 @@ func VerifH_C17_cors() {
 	origin := verif.String(3)
 	method := [3]string{"OPTIONS", "GET", "POST"}[verif.Choose(3)]
 	w := &corsWriter{}
+	// an outer handler (compression or caching wrapper) may already have put a Vary field
+	// on the response before the engine sees the request
+	outerVary := [3]string{"", "Accept-Encoding", "*"}[verif.Choose(3)]
+	if outerVary != "" {
+		w.Header().Set("Vary", outerVary)
+	}
 	r := &http.Request{Method: method, URL: &url.URL{Path: "/engine.io/"}, Header: http.Header{}}
 	ctx := NewHttpContext(w, r)
 	verif.Cleanup(ctx.Flush)
@@ -120,8 +126,9 @@ func VerifH_C17_cors() {
 		} else {
 			verif.Assert(acao != origin || origin == "false", "an origin the policy does not allow is never named")
 		}
-		verif.Assert(hasToken(vary, "Origin"), "Vary: Origin whenever the value depends on the request")
+		_ = vary
 	}
+
 	cred := ctx.ResponseHeaders.Peek("Access-Control-Allow-Credentials")
 	verif.Assert((cred == "true") == o.Credentials && (cred == "" || cred == "true"), "credentials header exactly when configured")
 	if method == "OPTIONS" && !o.PreflightContinue {
@@ -130,5 +137,20 @@ func VerifH_C17_cors() {
 		verif.Assert(w.hdr.Get("Content-Length") == "0", "and Content-Length: 0")
 	} else {
 		verif.Assert(nexts == 1 && w.writes == 0, "other requests are passed on exactly once, untouched")
+		// the transport answers the request: what reaches the client
+		ctx.SetStatusCode(200)
+		ctx.Write(nil)
 	}
+	// on the wire (the response writer's header as sent)
+	wire := ""
+	for i, v := range w.hdr.Values("Vary") {
+		if i > 0 {
+			wire += ", "
+		}
+		wire += v
+	}
+	if s, ok := policy.(string); !(ok && s == "*") {
+		verif.Assert(hasToken(wire, "Origin") || hasToken(wire, "*"), "the response as sent carries Vary: Origin whenever the allowed origin depends on the request")
+	}
+	verif.Assert(w.hdr.Get("Access-Control-Allow-Origin") == acao, "the response as sent carries the computed Access-Control-Allow-Origin")
 }
